@@ -169,7 +169,7 @@ theorem rinv_call {σ : St} (t : Nat) (o : Outer) (g v ng ns : Nat) (I : RInv σ
   split
   · rename_i hok
     simp only [callOk, Bool.and_eq_true, decide_eq_true_eq, Bool.not_eq_true', Bool.and_eq_false_iff] at hok
-    obtain ⟨⟨⟨⟨hidle, _⟩, _⟩, _⟩, hS⟩ := hok
+    obtain ⟨⟨⟨⟨⟨hidle, _⟩, _⟩, _⟩, _⟩, hS⟩ := hok
     obtain ⟨hpcP, hnsP⟩ := callPrep_pc σ t o g v ng ns
     obtain ⟨hpcE, hnsE, hclE⟩ := callEntry_pc (callPrep σ t o g v ng ns) t o g ng ns (by rw [hpcP, hidle])
     have hoth : ∀ u, u ≠ t → (callEntry (callPrep σ t o g v ng ns) t o g ng ns).th u = σ.th u := by
